@@ -33,6 +33,8 @@ pub enum CursorSel {
     All,
     Corners,
     Home,
+    /// positions around 0, 127/128, 255/256 and the edges (large geometries)
+    Boundary,
 }
 
 #[derive(Clone, Copy, PartialEq, Eq, Debug)]
@@ -246,6 +248,10 @@ pub fn regions_for(sel: RegionSel, l: u32) -> Vec<Option<(u32, u32)>> {
             if l >= 4 {
                 v.push(Some((1, l - 2)));
             }
+            if l > 258 {
+                v.push(Some((254, 257)));
+                v.push(Some((255, 256)));
+            }
         }
         RegionSel::All => {
             for t in 0..l {
@@ -265,6 +271,25 @@ fn cursors_for(sel: CursorSel, c: u32, l: u32) -> Vec<(u32, u32)> {
             let mut v = Vec::new();
             for y in 0..l {
                 for x in 0..=c {
+                    v.push((x, y));
+                }
+            }
+            v
+        }
+        CursorSel::Boundary => {
+            let pick = |n: u32, pw: bool| -> Vec<u32> {
+                let mut v: Vec<u32> = vec![0, 1, 127, 128, 254, 255, 256, 257, n.saturating_sub(2), n.saturating_sub(1)];
+                if pw {
+                    v.push(n);
+                }
+                v.retain(|x| *x < n || (pw && *x == n));
+                v.sort_unstable();
+                v.dedup();
+                v
+            };
+            let mut v = Vec::new();
+            for y in pick(l, false) {
+                for x in pick(c, true) {
                     v.push((x, y));
                 }
             }
